@@ -304,6 +304,15 @@ impl Gen {
 
     /// Next operation for the history's current state.
     pub fn next(&mut self, h: &Hist) -> Op {
+        // the call right after a drain is the one C10 judges: make it a probe most of the time
+        if self.emph == Emph::Drains && h.after_drain && self.rng.chance(4, 5) {
+            self.burst = None;
+            if self.rng.chance(1, 2) {
+                let (class, slot) = self.pick_class_slot(h);
+                return Op::Get { order: 0, class, slot };
+            }
+            return self.gen_get_at(h);
+        }
         if let Some((b, left)) = self.burst {
             self.burst = if left > 1 { Some((b, left - 1)) } else { None };
             match b {
